@@ -509,3 +509,20 @@ Proof.
   - intros Hnp. apply (restart_fold_full (nmods sc) (cfg sc m) t m (stage_list (c_stages (cfg sc m))) s0).
     intros C. apply Hnp. apply in_or_app. left. apply in_or_app. left. exact C.
 Qed.
+
+(* C09 fresh_after_restart (partial): when a restart event of module m is dispatched, m is down:
+   inactive, without tasks, without pending timers, without pending request.  The incarnation
+   that the replayed start-up stages build starts from the same task / timer state as the very
+   first one; what persists is what des keeps by design (the user struct, here: budget and
+   incarnation counter), the driver's next_wakeup and the try_join handles. *)
+Theorem fresh_after_restart sc pre e post m :
+  trace sc = pre ++ e :: post -> e_kind e = KLoop (EvRestart m) ->
+  exists w1 f1, Gen sc w1 pre /\ Down m w1 /\ fes_fetch (w_fes w1) = Some (e_time e, EvRestart m, f1).
+Proof.
+  intros E Hk. pose proof (restart_at_requested_time sc pre e post m E Hk) as Hp.
+  destruct (trace_cases sc pre e post E) as [(w1 & w2 & HG & Hs)|(w & tr & now & ms1 & m1 & ms2 & _ & _ & _ & _ & ->)]; [|discriminate].
+  destruct Hs as [stage m1 w Hfresh|w|w t ev f Hf]; try discriminate.
+  unfold loop_rec in Hk. cbn [snd e_kind] in Hk. injection Hk as ->.
+  exists w, f. split; [exact HG|]. split; [|exact Hf].
+  apply (gen_down sc m w pre HG), pending_down. rewrite Hp. discriminate.
+Qed.
